@@ -257,6 +257,35 @@ def run_case(case):
         if sum(runs.values()) > len(distinct):
             fail("a distinct batch element's body ran the wrong number of times",
                  "%s: %d body executions for %d distinct elements" % (label, sum(runs.values()), len(distinct)))
+        # ---- a function that takes free-form settings (**opts): elements pass settings the signature does not name; and
+        # one element of a batch over a plain signature names a parameter the function does not have (element-wise that
+        # call fails with TypeError, which belongs in its slot)
+        for fn_name, elems in (("pairk", [dict({"k": rng.randrange(4)}, **({"mode": rng.choice(["fast", "safe"])} if rng.random() < 0.6 else {}),
+                                               **({"level": rng.randrange(3)} if rng.random() < 0.4 else {}))
+                                          for _ in range(rng.randint(2, 5))]),
+                               ("pair3", [{"k": 0}, {"k": 1, "bogus": 1}, {"k": 2}])):
+            fn = getattr(ffuncs, fn_name)
+            full = [dict(kw, prefix=prefix) for kw in elems]
+            label = "batch over %s with elements %s" % (fn_name, elems)
+            env.set_env(sc.path("envK1" + fn_name), default_storage=env.fs_backend(sc.path("K1" + fn_name)))
+            indiv = [outcome_of(lambda kw=kw: fn(**kw)) for kw in full]
+            stateB = store_state(Environment_storage(), fn)
+            env.set_env(sc.path("envK2" + fn_name), default_storage=env.fs_backend(sc.path("K2" + fn_name)))
+            got = outcome_of(lambda: fn.call_batch([dict(kw) for kw in full], raise_first_exception=False))
+            stateA = store_state(Environment_storage(), fn)
+            out["obs"]["batches_with_names_outside_the_signature"] += 1
+            if got[0] == "raise":
+                fail("batch evaluation raises " + type(got[1]).__name__, "%s: %r" % (label, got[1]))
+            else:
+                for i, (r, o) in enumerate(zip(got[1], indiv)):
+                    out["obs"]["slots_compared"] += 1
+                    slot = ("raise", r) if isinstance(r, Exception) else ("ret", r)
+                    if not same_outcome(slot, o):
+                        fail("a batch slot differs from the individual call",
+                             "%s: slot %d: batch %s, individual %s" % (label, i, domain.describe(r, 80), domain.describe(o, 80)))
+            if set(stateA) != set(stateB):
+                fail("the store after a batch differs from the store after individual calls",
+                     "%s: batch store has %d entries, individual store %d" % (label, len(stateA), len(stateB)))
     out["obs"] = dict(out["obs"])
     out["sets"] = {k: sorted(v) for k, v in out["sets"].items()}
     return out
